@@ -17,6 +17,7 @@ mod refpeer;
 mod scen_adv;
 mod scen_c05u;
 mod scen_c08;
+mod scen_hsrv;
 mod scen_c08u;
 mod scen_c10;
 mod scen_c12;
@@ -49,6 +50,7 @@ fn generate(prop: &str, seed: u64, thorough: bool) -> Option<Plan> {
         "C07" => Some(scen_adv::gen_adv("C07", seed, thorough)),
         "C08" => Some(scen_c08::gen_c08(seed, thorough)),
         "C04udp" => Some(scen_ustream::gen_ustream("C04", seed, thorough)),
+        "C07srv" => Some(scen_hsrv::gen_hsrv(seed, thorough)),
         "C07udp" => Some(scen_ustream::gen_ustream("C07", seed, thorough)),
         "C08udp" => Some(scen_c08u::gen_c08u(seed, thorough)),
         "C09" => Some(scen_tcp::gen_c09(seed, thorough)),
@@ -76,6 +78,7 @@ fn execute(plan: &Plan) -> Outcome {
         "local-hs" => scen_local::execute_c13(plan),
         "teardown" => scen_c15::execute_c15(plan),
         "survival" => scen_c08::execute_c08(plan),
+        "hostile-server" => scen_hsrv::execute_hsrv(plan),
         "dgram-in-stream" => scen_ustream::execute_ustream(plan),
         "survival-udp" => scen_c08u::execute_c08u(plan),
         "udp-system" => scen_udp::execute_udp(plan),
